@@ -27,7 +27,7 @@ PAIRS = {"push": ("PUSH", "PULL"), "dealer": ("DEALER", "ROUTER"), "pub": ("PUB"
 
 
 def scenario(name, linger, n, size, transport="tcp", how="close", pace_us=0, stall_ms=0, pair="push", hwm=1000,
-             smallbuf=False, rcvhwm=None, idle_ms=4000):
+             smallbuf=False, rcvhwm=None, idle_ms=4000, sizes=None, presleep_ms=400):
     ep = S.endpoint(transport, name)
     txt, rxt = PAIRS[pair]
     txo = [S.i32(S.LINGER, linger), S.i32(S.SNDHWM, hwm), S.i32(S.SNDTIMEO, -1)]
@@ -49,13 +49,13 @@ def scenario(name, linger, n, size, transport="tcp", how="close", pace_us=0, sta
     rops.append({"op": "recv_n", "sock": "rx", "n": n + 1, "timeout_ms": idle_ms + (linger if linger > 0 and not stall_ms else 0), "pace_us": pace_us, "multipart": mp})
     rops.append({"op": "mark", "name": "reader_end"})
     cl = {"op": "term", "ctx": 1, "timeout_ms": 20000} if how == "term" else {"op": how, "sock": "tx", "timeout_ms": 20000}
-    tops = [{"op": "barrier", "name": "go", "parties": 2}, {"op": "connect", "sock": "tx", "ep": "$ep"}, {"op": "sleep", "ms": 400}]
+    tops = [{"op": "barrier", "name": "go", "parties": 2}, {"op": "connect", "sock": "tx", "ep": "$ep"}, {"op": "sleep", "ms": presleep_ms}]
     if pair == "router":
         # a ROUTER addresses its peer: identity frame + payload
         for k in range(1, n + 1):
             tops.append({"op": "send_mp", "sock": "tx", "mid": "a:%d" % k, "sizes": [size], "prefix_hex": [b"peer".hex()], "timeout_ms": 10000})
     elif n:
-        tops.append({"op": "send_n", "sock": "tx", "prefix": "a", "n": n, "sizes": [size], "max_errs": 0})
+        tops.append({"op": "send_n", "sock": "tx", "prefix": "a", "n": n, "sizes": list(sizes) if sizes else [size], "max_errs": 0})
     tops += [{"op": "mark", "name": "closing"}, cl, {"op": "mark", "name": "closed"},
              {"op": "sleep", "ms": max(stall_ms, 0) + (min(linger, 3000) if linger > 0 else 0) + idle_ms + 800}]
     own_ctx = how == "term" or transport != "inproc"
@@ -100,6 +100,15 @@ def build(thorough):
             scs.append(scenario("all-l-1-term-ipc-paced%d" % pace, -1, 400, 20000, "ipc", "term", pace_us=pace))
         for hwm in [1, 10, 50]:
             scs.append(scenario("all-l-1-close-tcp-beyondhwm%d" % hwm, -1, 600, 4096, "tcp", "close", hwm=hwm))
+    # uneven sizes: a few tiny messages among large ones make the session's batch budget overflow into its
+    # carry-over, which the socket's linger check cannot see
+    mixed = [65536] * 10 + [8] * 2
+    for (linger, how, tr) in ([(-1, "close", "tcp"), (8000, "term", "ipc")] if not thorough else
+                              [(-1, "close", "tcp"), (-1, "term", "tcp"), (8000, "close", "ipc"), (8000, "term", "ipc"), (3000, "drop", "tcp")]):
+        scs.append(scenario("all-l%d-%s-%s-mixed" % (linger, how, tr), linger, 170, 65536, tr, how, sizes=mixed, smallbuf=True))
+        for rep in range(3 if tr == "tcp" else 1):
+            # small kernel buffers keep a backlog in the socket's pipe, so that the session takes it in big uneven batches
+            scs.append(scenario("all-l%d-%s-%s-mixed2-%d" % (linger, how, tr, rep), linger, 164, 65536, tr, how, sizes=[65536] * 40 + [8] * 4 + [65536] * 120, smallbuf=True))
     for pair in ["dealer", "pub", "router"]:
         for tr in (["tcp", "ipc", "inproc"] if thorough else ["tcp"]):
             scs.append(scenario("pair-%s-%s-inf" % (pair, tr), -1, 60 if pair == "pub" else 300, 3000, tr, "close", pair=pair))
